@@ -1,6 +1,7 @@
 package main
 
 import (
+	"os"
 	"fmt"
 	"go/token"
 	"go/types"
@@ -468,6 +469,9 @@ func (fr *frame) applyContract(instr *ssa.Call, callee *ssa.Function, c *ssa.Cal
 	for _, u := range fc.Updates {
 		ms[e.ghostHeap(u.Label)] = 0 // set explicitly below
 	}
+	if fc.FreshResult {
+		ms[allocHeap] = modFresh // the callee allocates its results
+	}
 	fr.escapeArgs(st, args)
 	fr.escapeArgs(st, bindings)
 	fr.havocLevels(st, ms, true)
@@ -507,6 +511,31 @@ func (fr *frame) applyContract(instr *ssa.Call, callee *ssa.Function, c *ssa.Cal
 		reach = ft.define("reach_ret", SBool, and(reach, not(threw)))
 	}
 	res := fr.freshResults(sig, st, reach)
+	if fc.FreshResult {
+		// results are fresh, unshared memory: owned by the caller like its own allocations
+		mark := func(v Val, t types.Type) {
+			tm := ft.termOf(v, t)
+			var ref string
+			switch tm.Sort {
+			case SSlice:
+				ref = sx("sbase", tm.S)
+			case SRef:
+				ref = tm.S
+			default:
+				return
+			}
+			a := ft.heapTerm(old, allocHeap)
+			ft.assume(reach, or(eq(ref, "null"), not(sel(a, ref))))
+			ft.setHeap(st, escHeap, store(ft.heapTerm(st, escHeap), ref, "false"))
+		}
+		if sig.Results().Len() == 1 {
+			mark(res, sig.Results().At(0).Type())
+		} else {
+			for i := 0; i < sig.Results().Len() && i < len(res.Tuple); i++ {
+				mark(res.Tuple[i], sig.Results().At(i).Type())
+			}
+		}
+	}
 	fr.setResult(instr, res)
 	env.cur = st
 	env.bindResults(sig, callee, res)
@@ -824,11 +853,38 @@ func (fr *frame) appendCall(instr *ssa.Call, c *ssa.CallCommon, args []Val, st *
 	ft.assume("true", fmt.Sprintf(
 		"(forall ((j Int)) (! (=> (and (<= 0 j) (< j %s)) (= (select %s j) (ite (< j %s) (select %s (ix %s j)) %s))) :pattern ((select %s j))))",
 		total, na, sLen, sArr, s.S, tAt, na))
-	ft.setHeap(st, h, store(ft.heapTerm(st, h), r, na))
 	cp := ft.fresh("app_cap", SInt)
 	ft.assume("true", sx(">=", cp, total))
 	base := ite(and(eq(total, "0"), eq(sx("sbase", s.S), "null")), "null", r)
-	res := ft.define("appended", SSlice, sx("mk-slice", base, "0", total, ite(eq(base, "null"), "0", cp)))
+	freshRes := sx("mk-slice", base, "0", total, ite(eq(base, "null"), "0", cp))
+	if os.Getenv("GOVC_APPEND_INPLACE") == "" {
+		// default model: always a fresh backing array (value semantics); exact
+		// unless an in-place append overwrites elements another live slice views,
+		// which the alias/append obligations of verify.go exclude
+		ft.setHeap(st, h, store(ft.heapTerm(st, h), r, na))
+		res := ft.define("appended", SSlice, freshRes)
+		fr.setResult(instr, Val{T: Term{res, SSlice}})
+		return
+	}
+	// Go semantics: if the capacity suffices the elements are written behind
+	// len(s) into the backing array of s (visible through every slice sharing
+	// it), otherwise a fresh array is allocated. Sources are read before writing.
+	fits := ft.define("app_fits", SBool, and(not(eq(sx("sbase", s.S), "null")), sx("<=", total, sx("scap", s.S))))
+	lo := ft.define("app_lo", SInt, sx("ix", s.S, sLen))
+	hi := ft.define("app_hi", SInt, sx("ix", s.S, total))
+	var tAbs string
+	if _, isStr := c.Args[1].Type().Underlying().(*types.Basic); isStr {
+		t := ft.termOf(args[1], c.Args[1].Type())
+		tAbs = fmt.Sprintf("(strbyte %s (- j %s))", t.S, lo)
+	} else {
+		t := ft.termOf(args[1], c.Args[1].Type())
+		tAbs = fmt.Sprintf("(select %s (ix %s (- j %s)))", sel(heap, sx("sbase", t.S)), t.S, lo)
+	}
+	ia := ft.fresh("app_inplace", arraySort(SInt, es))
+	ft.assume("true", fmt.Sprintf("(forall ((j Int)) (! (= (select %s j) (ite (and (<= %s j) (< j %s)) %s (select %s j))) :pattern ((select %s j))))", ia, lo, hi, tAbs, sArr, ia))
+	cur := ft.heapTerm(st, h)
+	ft.setHeap(st, h, ite(fits, store(cur, sx("sbase", s.S), ia), store(cur, r, na)))
+	res := ft.define("appended", SSlice, ite(fits, sx("mk-slice", sx("sbase", s.S), sx("soff", s.S), total, sx("scap", s.S)), freshRes))
 	fr.setResult(instr, Val{T: Term{res, SSlice}})
 }
 
